@@ -1046,7 +1046,7 @@ def plan(pid: str, tier: str, rng: random.Random) -> list[dict]:
             stage = 1 if n == "suspend2" else 0
             for at in range(0, 16):
                 for pers in (True, False):
-                    for pol in ("fifo", "random"):
+                    for pol in ("fifo", "random", "redeliver"):      # redeliver: the SignalStage itself may be delivered twice
                         add(kind="inject", what="signal", stage=stage, signame=1 + (at % 3), persistent=pers, at=at,
                             spec=spec, name=n, policy=pol)
     return corpus(pid) + cases
